@@ -1,7 +1,9 @@
 (* C10 -- Malformed netlists are rejected; API-built designs iterate in
    dependency order whichever way ties are broken.
-   Only statements + `exact`; proofs in Netlist/IterCorrect.v, SanityCorrect.v. *)
+   Only statements + `exact`; proofs in Netlist/IterCorrect.v, IterComplete.v,
+   SanityCorrect.v, SanityGen.v, Accepted.v. *)
 From PyRTL Require Import Netlist.Sanity Netlist.IterCorrect Netlist.SanityCorrect Netlist.Accepted.
+From PyRTL Require Import Netlist.IterComplete.
 From Coq Require Import Permutation.
 
 (* Whatever the schedule (oracle = the sequence of to_clear.pop() choices): if
@@ -16,6 +18,33 @@ Theorem C10_iter_any_schedule_sound : forall nl oracle l,
   /\ topo_sortedb nl (map snd l) = true.
 Proof. exact iterate_sound. Qed.
 Print Assumptions C10_iter_any_schedule_sound.
+
+(* COMPLETENESS, whichever way ties are broken: a netlist that passes the model of
+   sanity_check, in which no combinational net drives a Register (construction API:
+   `reg <<= x` raises; see C10_example_comb_driven_register for why it is needed) and
+   whose nets have SOME dependency order, iterates successfully under EVERY
+   schedule -- never the KeyError "Cannot Iterate through malformed block", never
+   "non-register loops", never out of fuel -- and yields each net exactly once, after
+   the producers of all its non-source arguments. *)
+Theorem C10_iter_any_schedule_complete : forall nl,
+  sanity_block nl = true -> comb_dest_not_reg nl = true ->
+  (exists l, Permutation l (nets nl) /\ topo_sortedb nl l = true) ->
+  forall oracle, exists l,
+    iterate nl oracle = IOk l
+    /\ Permutation (map snd l) (nets nl)
+    /\ NoDup (map fst l)
+    /\ topo_sortedb nl (map snd l) = true.
+Proof. exact iterate_total. Qed.
+Print Assumptions C10_iter_any_schedule_complete.
+
+(* Without assuming a dependency order: the only way the iterator can fail on a
+   sanity-checked netlist is the "non-register loops" error -- the same under every
+   schedule is NOT claimed here, only: never a KeyError, never out of fuel. *)
+Theorem C10_iter_fails_only_by_loop : forall nl,
+  sanity_block nl = true -> comb_dest_not_reg nl = true ->
+  forall oracle, (exists l, iterate nl oracle = IOk l) \/ iterate nl oracle = ILoop.
+Proof. exact iterate_no_keyerror. Qed.
+Print Assumptions C10_iter_fails_only_by_loop.
 
 (* A combinational cycle (no dependency order exists) is rejected under every schedule. *)
 Theorem C10_cycle_rejected : forall nl,
@@ -155,4 +184,68 @@ Definition ex_cycle : netlist :=
 
 Example C10_example_cycle_rejected :
   sanity_block ex_cycle = true /\ accepted ex_cycle [] = false /\ accepted ex_cycle [1; 1]%nat = false.
+Proof. vm_compute. repeat split; reflexivity. Qed.
+
+(* Non-vacuity of the completeness theorem: the example design satisfies its three
+   hypotheses (the dependency order is the one a schedule yields). *)
+Example C10_example_complete_hyps :
+  sanity_block ex_nl = true /\ comb_dest_not_reg ex_nl = true
+  /\ exists l, Permutation l (nets ex_nl) /\ topo_sortedb ex_nl l = true.
+Proof.
+  split; [vm_compute; reflexivity|]. split; [vm_compute; reflexivity|].
+  destruct (iterate ex_nl []) as [l| | |] eqn:E; try (vm_compute in E; discriminate E).
+  exists (map snd l). destruct (iterate_sound ex_nl [] l E) as [Hp [Hn Ht]].
+  split; [apply yielded_perm; assumption|assumption].
+Qed.
+
+(* The side condition is needed, in the model AND in PyRTL: a Register driven by a
+   combinational net passes sanity_check, has a dependency order, and iterates under
+   one schedule but raises "Cannot Iterate through malformed block" under another. *)
+Definition ex_regdrv : netlist :=
+  {| wires := [ mkWire 1 1 KInput; mkWire 2 1 (KReg None); mkWire 3 1 KOutput ];
+     nets := [ mkNet OpW [1] 2; mkNet OpW [2] 3 ];
+     mems := [] |}.
+
+Example C10_example_comb_driven_register :
+  sanity_block ex_regdrv = true /\ comb_dest_not_reg ex_regdrv = false
+  /\ topo_sortedb ex_regdrv (nets ex_regdrv) = true
+  /\ accepted ex_regdrv [] = true /\ iterate ex_regdrv [1]%nat = IKeyError.
+Proof. vm_compute. repeat split; reflexivity. Qed.
+
+(* ------------------------------------------------------------------------------
+   Everything below depends on Gen/SanityNet.v, which is REGENERATED from the current
+   source of Block.sanity_check_net on every run (py/genfrag_C10.py).  The import is
+   placed here so that a broken tie leaves the theorems above discharged. *)
+From PyRTL Require Import Gen.SanityNet Netlist.SanityGen.
+
+(* TRANSLATOR TIE for sanity_check_net: the guard list regenerated on every run
+   from the current source of Block.sanity_check_net (Gen/SanityNet.v: every
+   `if ...: raise`, first one to fire) rejects the shape of an embedded net exactly
+   when the hand model `sanity_net` -- over which the rejection theorems above are
+   stated -- rejects it.  Deleting or weakening an `if` of the source that can fire
+   on an embedded net breaks this proof. *)
+Theorem C10_source_guards_agree_with_model : forall nl n,
+  Gen.SanityNet.rejects (shape_of nl n) = negb (sanity_net nl n).
+Proof. exact gen_agrees. Qed.
+Print Assumptions C10_source_guards_agree_with_model.
+
+Theorem C10_source_guard_rejects : forall nl n,
+  In n (nets nl) -> Gen.SanityNet.rejects (shape_of nl n) = true -> sanity_block nl = false.
+Proof. exact source_guard_rejects. Qed.
+Print Assumptions C10_source_guard_rejects.
+
+Theorem C10_accepted_no_raise : forall nl n,
+  sanity_block nl = true -> In n (nets nl) -> Gen.SanityNet.check (shape_of nl n) = None.
+Proof. exact accepted_no_raise. Qed.
+Print Assumptions C10_accepted_no_raise.
+
+(* Non-vacuity of the translator tie: the regenerated guards accept every net of the
+   example design, and reject (with the ordinal of the `raise` that fires) a mux whose
+   select is 3 bits wide and a select whose index equals the source width. *)
+Example C10_example_generated_guards :
+  check_case ex_nl = [0; 0; 0; 0; 0; 0; 0]
+  /\ Gen.SanityNet.rejects (shape_of ex_nl (mkNet OpMux [1; 3; 4] 8)) = true
+  /\ Gen.SanityNet.rejects (shape_of ex_nl (mkNet OpMux [7; 3; 4] 8)) = false
+  /\ Gen.SanityNet.rejects (shape_of ex_nl (mkNet (OpSelect [3; 0]) [1] 6)) = true
+  /\ Gen.SanityNet.rejects (shape_of ex_nl (mkNet (OpSelect [2; 0]) [1] 6)) = false.
 Proof. vm_compute. repeat split; reflexivity. Qed.
